@@ -21,16 +21,6 @@ Proof.
   rewrite Hk in H. exact H.
 Qed.
 
-(* ... and the full statement is false of the table as it is today *)
-Lemma registry_complete_refuted :
-  exists r, In r registry /\ uses_declared r = false.
-Proof.
-  destruct (find (fun r => negb (uses_declared r)) registry) as [r|] eqn:E.
-  - apply find_some in E. destruct E as [Hin Hn]. exists r. split; [exact Hin|].
-    now apply negb_true_iff in Hn.
-  - exfalso. revert E. vm_compute. discriminate.
-Qed.
-
 (* recipes whose hashes can coincide compute the same thing *)
 Lemma registry_collide_ok : collide_ok registry = true.
 Proof. vm_compute. reflexivity. Qed.
@@ -67,52 +57,46 @@ Proof.
     vm_compute; reflexivity.
 Qed.
 
-Lemma emodulus_inputs_refuted :
-  exists (lut med tmp visc vm ht : bool),
-    spec_scenario lut med tmp visc ht <> 0 /\
-    taken lut med tmp visc vm ht 1 <> spec_scenario lut med tmp visc ht.
-Proof.
-  exists true, true, true, true, true, false. vm_compute.
-  split; discriminate.
-Qed.
-
-(* finding C06-emodulus-available-unreadable: case-A ingredients plus a
-   viscosity: listed as available, reading raises ValueError *)
-Lemma available_iff_readable_refuted :
-  exists b : base,
-    contains AF registry (fresh b) f_emodulus = true
-    /\ snd (read RF registry (fresh b) f_emodulus) = Err e_value.
-Proof.
-  exists (emod_base true true false true true true 1).
-  vm_compute. split; reflexivity.
-Qed.
-
-(* finding C06-cached-stays-listed: compute time, delete the frame rate *)
-Lemma contains_fresh_refuted :
-  exists (b : base) (ops : list op) (f : Z),
-    let st := run_state registry (fresh b) ops in
-    contains AF registry st f = true
-    /\ contains AF registry (clear st) f = false
-    /\ snd (read RF registry st f) = Err e_key.
-Proof.
-  exists (mkBase [(f_frame, 0)] [] [(k_frame_rate, 1)]),
-         [Read f_time; DelCfg k_frame_rate], f_time.
-  vm_compute. repeat split; reflexivity.
-Qed.
-
-(* findings C06-ctc-undeclared-crosstalk / -emodulus-stale-viscosity: a read
-   that returns a value a fresh dataset would not compute.  Witness:
-   2-channel crosstalk correction, then "crosstalk fl13" changes. *)
-Lemma read_fresh_refuted :
-  exists (b : base) (ops : list op) (f : Z),
-    let st := run_state registry (fresh b) ops in
-    exists v v0, snd (read RF registry st f) = Ok v
-                 /\ snd (read RF registry (clear st) f) = Ok v0 /\ v <> v0.
-Proof.
-  exists (mkBase [(f_fl1, 0); (f_fl2, 0)] [] [(11, 1); (13, 1); (15, 1)]),
-         [Read f_fl1_ctc; SetCfg 15 2], f_fl1_ctc.
-  vm_compute. do 2 eexists. repeat split; try reflexivity. discriminate.
-Qed.
+(* ---- witnesses of the listed findings: booleans, evaluated by the
+   harness (vm_compute) and reported in the evidence next to the status of
+   the finding in known_findings.json.  They are deliberately NOT theorems:
+   a repair of a recorded defect must not break the build. ---- *)
+(* some recipe reads an ingredient outside its cache key *)
+Definition w_registry_incomplete : bool :=
+  existsb (fun r => negb (uses_declared r)) registry.
+(* case-C ingredients plus a viscosity: compute_emodulus does not use the
+   inputs of the documented scenario *)
+Definition w_emodulus_inputs : bool :=
+  negb (taken true true true true true false 1
+        =? spec_scenario true true true true false).
+(* C06-emodulus-available-unreadable: case-A ingredients plus a viscosity *)
+Definition w_available_unreadable : bool :=
+  let b := emod_base true true false true true true 1 in
+  contains AF registry (fresh b) f_emodulus
+  && match snd (read RF registry (fresh b) f_emodulus) with
+     | Err _ => true | Ok _ => false end.
+(* C06-cached-stays-listed: compute time, delete the frame rate *)
+Definition w_cached_stays_listed : bool :=
+  let st := run_state registry
+              (fresh (mkBase [(f_frame, 0)] [] [(k_frame_rate, 1)]))
+              [Read f_time; DelCfg k_frame_rate] in
+  contains AF registry st f_time
+  && negb (contains AF registry (clear st) f_time).
+(* C06-ctc-undeclared-crosstalk: 2-channel correction, then "crosstalk fl13"
+   changes: the read returns a value a fresh dataset does not compute *)
+Definition w_stale_read : bool :=
+  let st := run_state registry
+              (fresh (mkBase [(f_fl1, 0); (f_fl2, 0)] []
+                             [(11, 1); (13, 1); (15, 1)]))
+              [Read f_fl1_ctc; SetCfg 15 2] in
+  match snd (read RF registry st f_fl1_ctc),
+        snd (read RF registry (clear st) f_fl1_ctc) with
+  | Ok v, Ok v0 => negb (val_eqb v v0)
+  | _, _ => false
+  end.
+Definition finding_witnesses : list Z :=
+  map b2z [w_registry_incomplete; w_emodulus_inputs; w_available_unreadable;
+           w_cached_stays_listed; w_stale_read].
 
 (* ---- the generic theorems instantiated with the table ---- *)
 Lemma registry_recipes_coherent :
